@@ -14,18 +14,22 @@ LEVEL = "model_checking"
 TIER = "quick"
 
 ATOMS = ["a", "b", ".", "[ab]", "[^a]", r"\d", r"\w", r"\.", "(?i:a)", "(?i:ß)", r"[^\d]", "[b-c]", r"\s"]
+MULTI_UPPER = "ßŉǰﬁﬂﬀﬃﬄﬅﬆ"
 CHARSETS = {
     "abc": ["a", "b", "c"],
-    "mixed": ["a", "b", "A", "B", "1", "_", "\n", "."],
+    "mixed": ["a", "b", "A", "B", "1", "_", "\n", ".", "$"],
     "sharp-s": ["ß", "s", "S", "a"],
+    # ten characters whose upper-case form has several characters (interegular lists the multi-character image and the
+    # character in ONE transition class, in set-iteration order); only used for the patterns that mention them
+    "multi-upper": list(MULTI_UPPER) + ["a"],
 }
 NON_ASCII_UNSAFE = (r"\w", r"\d", r"\s")  # their non-ASCII behaviour is not part of the supported subset
 
 
 def cfgp():
     if TIER == "thorough":
-        return dict(depth=3, strlen={"abc": 4, "mixed": 3, "sharp-s": 4})
-    return dict(depth=2, strlen={"abc": 3, "mixed": 2, "sharp-s": 3})
+        return dict(depth=3, strlen={"abc": 4, "mixed": 3, "sharp-s": 4, "multi-upper": 2})
+    return dict(depth=2, strlen={"abc": 3, "mixed": 2, "sharp-s": 3, "multi-upper": 2})
 
 
 def init_worker(tier):
@@ -97,6 +101,9 @@ def patterns(depth):
     for dead in (r"[^\w\W]", "[^abc]", r"[^\s\S]"):
         for shape in ("{D}", "a{D}", "{D}a", "a|{D}", "{D}|a", "a{D}|b", "b|a{D}", "a{D}|bc", "{D}b|ac", "(?:{D}|a)b", "{D}*a", "a{D}?b", "(?:a{D})*b", "a(?:b|{D})c", "(?:a|b{D})*c", "{D}+|ab", "ab|b{D}a|ba"):
             sharp.append(shape.replace("{D}", dead))
+    sharp += ["(?i:" + "|".join(MULTI_UPPER) + ")a", "(?i:" + MULTI_UPPER[:5] + ")|a", "a(?i:[" + MULTI_UPPER + "])", "(?i:" + "|".join(MULTI_UPPER[5:]) + ")*a(?i:ŉ)"]
+    # escaped metacharacters as the FIRST / LAST character of a pattern
+    sharp += [r"a\$", r"[ab]+\$", r"[^a]\$", r"\$", r"\$a", r"\^a", r"a\^", r"(?:a|\$)b", r"a\.", r"a\\"[:-1] + "|b", r"a\*", r"\+a", r"a\?", r"\(a\)", r"a\|"]
     return [p for lv in levels for p in lv], sharp, transitions
 
 
@@ -164,6 +171,8 @@ def run_case(case):
             continue
         for cname, cs in CHARSETS.items():
             if cname == "sharp-s" and any(x in pat for x in NON_ASCII_UNSAFE):
+                continue
+            if (cname == "multi-upper") != ("ŉ" in pat):
                 continue
             inp0 = {"pattern": pat, "charset": cname}
             try:
